@@ -12,6 +12,15 @@ ALIAS = {"BlowfishLE": ["Blowfish<LE>", "BlowfishLE"], "Blowfish": ["Blowfish<BE
 for x in "ABCD":
     ALIAS["Gost89CryptoPro" + x] = ["Gost89<CryptoPro" + x + ">", "Gost89CryptoPro" + x]
 ALGALIAS = {"KuznyechikEnc": ["Kuznyechik"], "KuznyechikDec": ["Kuznyechik"]}
+# shadow builds (DESIGN §4.4): the registry name carries a prefix, the type executed is the repository's own type of the
+# aarch64 backend, whose Debug / AlgorithmName text names that type (`Aes128Enc { .. }`, `Kuznyechik { ... }`)
+for _n in (128, 192, 256):
+    for _sfx in ("", "Enc", "Dec"):
+        ALIAS[f"Armv8Aes{_n}{_sfx}"] = [f"Aes{_n}{_sfx}"]
+        ALGALIAS[f"Armv8Aes{_n}{_sfx}"] = [f"Aes{_n}"] if _sfx == "" else [f"Aes{_n}{_sfx}", f"Aes{_n}"]
+for _sfx in ("", "Enc", "Dec"):
+    ALIAS["NeonKuznyechik" + _sfx] = ["Kuznyechik" + _sfx]
+    ALGALIAS["NeonKuznyechik" + _sfx] = ["Kuznyechik"]
 
 
 def expected_names(name):
